@@ -463,6 +463,17 @@ pub fn c15_families(tier: Tier) -> Vec<Family> {
         fams.push(Family { name: format!("2x1/{}", kname), programs: p2, opts: o });
         fams.push(Family { name: format!("3x1/{}", kname), programs: p3, opts: SchedOpts { max_bound: if tier == Tier::Quick { 2 } else { 3 }, ..o } });
     }
+    // a store of an absent key (exact when run alone) racing deletes and reads of that very key:
+    // publishing the record and accounting for it are two steps a delete can fall between
+    let keys = vec![K.to_vec()];
+    let mut p = vec![];
+    for st in [T::Set, T::SetBig, T::Add] {
+        for other in [vec![T::Del], vec![T::Get], vec![T::Del, T::Get], vec![T::Get, T::Del], vec![T::Del, T::Del]] {
+            p.push(mk(Init::Absent, vec![vec![st], other.clone()], K, K, keys.clone(), Policy::Random(4000)));
+        }
+        p.push(mk(Init::Absent, vec![vec![st], vec![T::Del], vec![T::SetNew]], K, K, keys.clone(), Policy::Random(4000)));
+    }
+    fams.push(Family { name: "absent-key-store-vs-delete".into(), programs: p, opts: o });
     fams
 }
 
